@@ -913,6 +913,8 @@ def run(ck):
     ck.cov["theorems"] = th1 + [t for t in ck.cov["theorems"] if t not in th1]
     ck.cov["axioms_by_theorem"] = dict(ax1, **ck.cov["axioms_by_theorem"])
     ck.proof_failures = pf1 + [x for x in ck.proof_failures if x not in pf1]
+    ck.cov["checker_cmd"] = ("coq_makefile -f _CoqProject -o Makefile && make -j%d c13/Properties_C13.vo c13/PropertiesMod_C13.vo ; "
+                             "coqc Pins_C13.v ; coqc Pins_C13mod.v" % common.NPROC)
     if mg_tie:
         proved_mod = False
         ck.proof_failures.append("generated facts of the module system (Gen_C13mod) could not be extracted: " + mg_tie)
